@@ -130,7 +130,55 @@ where
         };
         let g3 = g;
         let mask = if hb == 0 { 0 } else { (1u64 << hb) - 1 };
-        for sig in &sigs {
+        // change-point signatures: the edge functions invert a fixed-point product, floor(h * R / 2^64); the
+        // boundaries of its preimages are found by bisection on the observable edge() itself, for a fixed shard
+        // (the top hb bits of the first word) and a fixed other word, and their neighbours are added to the case.
+        let mut extra: Vec<S> = Vec::new();
+        if nv >= 3 && max_shard == hi {
+            let free = 64 - hb.min(63);
+            let fmask = if free >= 64 { !0u64 } else { (1u64 << free) - 1 };
+            for round in 0..4u32 {
+                let shard_sel = match (ms_sel as u32 + round) % 4 {
+                    0 => mask,
+                    1 => 1 & mask,
+                    2 => sigs[round as usize].first() & mask,
+                    _ => mask >> 1,
+                };
+                let top = if hb == 0 { 0 } else { shard_sel << (64 - hb) };
+                let other = sigs[8 + round as usize].first();
+                let word = round % 2; // which signature word varies
+                let j = ((ms_sel >> 4) as usize + round as usize) % 3;
+                let mk = |t: u64| -> S {
+                    if word == 0 {
+                        S::make(top | (t & fmask), other)
+                    } else {
+                        S::make(top | (other & fmask), t)
+                    }
+                };
+                let (mut lo_t, mut hi_t) = (sigs[16 + round as usize].first() & if word == 0 { fmask } else { !0 }, sigs[24 + round as usize].first() & if word == 0 { fmask } else { !0 });
+                if lo_t > hi_t {
+                    std::mem::swap(&mut lo_t, &mut hi_t);
+                }
+                let f = |cx: &mut Ctx, t: u64| -> R<usize> { cx.must("edge", || g.edge(mk(t))[j]) };
+                let flo = f(cx, lo_t)?;
+                if f(cx, hi_t)? == flo {
+                    continue;
+                }
+                while hi_t - lo_t > 1 {
+                    let mid = lo_t + (hi_t - lo_t) / 2;
+                    if f(cx, mid)? != flo {
+                        hi_t = mid;
+                    } else {
+                        lo_t = mid;
+                    }
+                }
+                cx.label("change_point_sigs");
+                for t in [lo_t.wrapping_sub(1), lo_t, hi_t, hi_t.wrapping_add(1)] {
+                    extra.push(mk(t));
+                }
+            }
+        }
+        for sig in sigs.iter().chain(extra.iter()) {
             let sig = *sig;
             let ctx = || format!("{name} n={n} eps={eps} max_shard={max_shard} sig={sig:x?} [{g:?}]");
             let ed = cx.must("edge", || g.edge(sig))?;
@@ -173,7 +221,7 @@ impl Property for C16 {
         "C16"
     }
     fn plan(&self, tier: Tier) -> Vec<Segment> {
-        let n = tier.pick(40_000, 800_000);
+        let n = tier.pick(160_000, 4_000_000);
         vec![
             Segment::random("FuseLge3Shards", n, &[0], 24, 1100),
             Segment::random("FuseLge3NoShards<[u64;2]>", n, &[1], 24, 1100),
@@ -184,7 +232,7 @@ impl Property for C16 {
         ]
     }
     fn rule(&self) -> &'static str {
-        "case = (one of the six (signature type, shard/edge logic) pairs, n in {0..300, 2^k+-1, 49999.., 99999.., 199999.., 399999.., 799999.., 10^7+-1, 2*10^7+-1, uniform <=3*10^6, log-uniform <=10^12}, eps in {1e-4,1e-3,1e-2,1e-1}, the three maximum shards ceil(n/shards), min(n, floor(1.01 n/shards)) and one in between, 64 signatures whose words are 0, 1, 2^k, 2^k-1, all ones, ones shifted, or uniform) decoded from bytes; oracle = validity predicate: vertices pairwise distinct, inside the backing array and the slice of shard(sig), equal to local_edge(local_sig(sig)) + shard base, sort_key < num_sort_keys, shard == high bits of the signature, num_shards == 1 << shard_high_bits, determinism across calls, Copy and an ε-serde round trip. A set-up that panics on a documented capacity assertion is discarded (label capacity_discard) only beyond the documented range. Non-trivial: n >= 1; distinct = distinct hash of the decoded case."
+        "case = (one of the six (signature type, shard/edge logic) pairs, n in {0..300, 2^k+-1, 49999.., 99999.., 199999.., 399999.., 799999.., 10^7+-1, 2*10^7+-1, uniform <=3*10^6, log-uniform <=10^12}, eps in {1e-4,1e-3,1e-2,1e-1}, the three maximum shards ceil(n/shards), min(n, floor(1.01 n/shards)) and one in between, 64 signatures whose words are 0, 1, 2^k, 2^k-1, all ones, ones shifted, or uniform) decoded from bytes; oracle = validity predicate: vertices pairwise distinct, inside the backing array and the slice of shard(sig), equal to local_edge(local_sig(sig)) + shard base, sort_key < num_sort_keys, shard == high bits of the signature, num_shards == 1 << shard_high_bits, determinism across calls, Copy and an ε-serde round trip. A set-up that panics on a documented capacity assertion is discarded (label capacity_discard) only beyond the documented range. Besides the 64 class-generated signatures, up to 16 change-point signatures per case: the boundaries of the preimages of the fixed-point inversion floor(h*R/2^64), located by bisection on edge() itself for a fixed shard (all ones, 1, random, half) and fixed other word, and their +-1 neighbours. Non-trivial: n >= 1; distinct = distinct hash of the decoded case."
     }
     fn run(&self, data: &[u8], cx: &mut Ctx) -> R {
         let (mode, rest) = data.split_first().unwrap_or((&0, &[]));
